@@ -243,7 +243,7 @@ class DataPath:
             cnd = i.condition
             if (
                 isinstance(i, MapValue)
-                and not i.label
+                and i.label is None
                 and type(cnd) is cnds.Key
                 and cnd.callable.name == "equal_to"
                 and isinstance(cnd.callable.kwargs.get("value"), (str, float))
@@ -251,7 +251,7 @@ class DataPath:
                 part_spec = cnd.callable.kwargs["value"]
             elif (
                 isinstance(i, MapOrListValue)
-                and not i.label
+                and i.label is None
                 and cnd.is_null
                 and type(i.list_condition) is cnds.Index
                 and i.list_condition.callable.name == "equal_to"
